@@ -369,14 +369,24 @@ def minifyColor (t : Tok) : Tok :=
 
 /-! ## comma separated layers -/
 
-/-- apply `f` to every non-empty comma-separated segment (the `start`/`end` loop of `minifyProperty`) -/
-def mapSegAux (f : List Tok → List Tok) : List Tok → List Tok → List Tok
-  | cur, [] => if cur.isEmpty then [] else f cur.reverse
-  | cur, t :: r =>
-    if isComma t then (if cur.isEmpty then [] else f cur.reverse) ++ t :: mapSegAux f [] r
-    else mapSegAux f (t :: cur) r
+/-- the value list as first layer and the following (comma token, layer) pairs -/
+def splitC : List Tok → List Tok × List (Tok × List Tok)
+  | [] => ([], [])
+  | t :: r =>
+    let (s, rest) := splitC r
+    if isComma t then ([], (t, s) :: rest) else (t :: s, rest)
 
-def mapSeg (f : List Tok → List Tok) (vs : List Tok) : List Tok := mapSegAux f [] vs
+def joinC (p : List Tok × List (Tok × List Tok)) : List Tok :=
+  p.1 ++ p.2.flatMap fun (c, seg) => c :: seg
+
+/-- a layer rewrite is applied to non-empty layers only -/
+def onLayer (f : List Tok → List Tok) (seg : List Tok) : List Tok := if seg.isEmpty then [] else f seg
+
+/-- apply `f` to every non-empty comma-separated layer, commas stay (the `start`/`end` loop of
+    `minifyProperty`) -/
+def mapSeg (f : List Tok → List Tok) (vs : List Tok) : List Tok :=
+  let p := splitC vs
+  joinC (onLayer f p.1, p.2.map fun (c, seg) => (c, onLayer f seg))
 
 /-! ## property rewrites -/
 
@@ -391,11 +401,28 @@ def minifySides : List Tok → List Tok
     else [a, b, c, d]
   | vs => vs
 
+/-- drop the tokens whose identifier hash is one of `kws`; `none` if nothing is left -/
+def dropOnly (kws : List (List Char)) (vs : List Tok) : List Tok :=
+  let r := vs.filter fun t => !kws.contains (identOf t)
+  if r.isEmpty then [tIdent (S "none")] else r
+
 /-- `border*`, `outline`, `column-rule`, `text-decoration`, `text-emphasis`: drop the listed initial-value
     keywords, shorten colours, `none` if nothing is left -/
 def dropKeywords (kws : List (List Char)) (vs : List Tok) : List Tok :=
   let r := (vs.filter fun t => !kws.contains (identOf t)).map minifyColor
   if r.isEmpty then [tIdent (S "none")] else r
+
+/-- the shorthands whose initial-value keywords are dropped, with those keywords (literals of `minifyProperty`) -/
+def lineDropTable : List (List Char × List (List Char)) :=
+  [(S "border", ["none", "currentcolor", "medium"].map S),
+   (S "border-bottom", ["none", "currentcolor", "medium"].map S),
+   (S "border-left", ["none", "currentcolor", "medium"].map S),
+   (S "border-right", ["none", "currentcolor", "medium"].map S),
+   (S "border-top", ["none", "currentcolor", "medium"].map S),
+   (S "outline", ["invert", "none", "medium"].map S),
+   (S "column-rule", ["currentcolor", "none", "medium"].map S),
+   (S "text-decoration", ["currentcolor", "none", "solid"].map S),
+   (S "text-emphasis", ["currentcolor", "none"].map S)]
 
 def minifyFontWeight : List Tok → List Tok
   | t :: r =>
@@ -694,7 +721,6 @@ def minifyBgPosition (vs : List Tok) : List Tok := (bgPosLayers [] (vs.map annot
 
 /-! ## minifyProperty -/
 
-def borderProps : List (List Char) := ["border", "border-bottom", "border-left", "border-right", "border-top"].map S
 def sideColorProps : List (List Char) :=
   ["border-left-color", "border-right-color", "border-top-color", "border-bottom-color",
    "text-decoration-color", "text-emphasis-color"].map S
@@ -709,8 +735,7 @@ def minifyProperty (o : Opts) (prop : List Char) (vs : List Tok) : Option (List 
   else if prop == S "font-family" then minifyFontFamily vs
   else if prop == S "font-weight" then some (minifyFontWeight vs)
   else if prop == S "margin" || prop == S "padding" || prop == S "border-width" then some (minifySides vs)
-  else if borderProps.contains prop then some (dropKeywords (["none", "currentcolor", "medium"].map S) vs)
-  else if prop == S "outline" then some (dropKeywords (["invert", "none", "medium"].map S) vs)
+  else if (lineDropTable.lookup prop).isSome then some (dropKeywords ((lineDropTable.lookup prop).getD []) vs)
   else if prop == S "background-size" then some (mapSeg bgSizeSeg vs)
   else if prop == S "background-repeat" then some (mapSeg bgRepeatSeg vs)
   else if prop == S "background-position" then some (minifyBgPosition vs)
@@ -731,10 +756,7 @@ def minifyProperty (o : Opts) (prop : List Char) (vs : List Tok) : Option (List 
   else if sideColorProps.contains prop then
     some (mapHead (fun t => if identOf t == S "currentcolor" then .mk .ident (S "initial") t.args else minifyColor t) vs)
   else if plainColorProps.contains prop then some (mapHead minifyColor vs)
-  else if prop == S "column-rule" then some (dropKeywords (["currentcolor", "none", "medium"].map S) vs)
   else if prop == S "text-shadow" then some (vs.map minifyColor)
-  else if prop == S "text-decoration" then some (dropKeywords (["currentcolor", "none", "solid"].map S) vs)
-  else if prop == S "text-emphasis" then some (dropKeywords (["currentcolor", "none"].map S) vs)
   else if prop == S "flex" then some (minifyFlex vs)
   else if prop == S "flex-basis" then
     some (mapHead (fun t => if identOf t == S "initial" then .mk .ident (S "auto") t.args else minifyLengthPercentage t) vs)
